@@ -570,6 +570,8 @@ func (r *Real) applyBuild(b *BuildOp) []string {
 			g.Namespace = s
 		case "envns":
 			g.EnvNamespace = s
+		case "shortdesc":
+			g.ShortDescription = s
 		case "hidden":
 			g.Hidden = b.Vals[0] == "1"
 		}
